@@ -529,11 +529,19 @@ def run_histories(ctx, n):
     return evaluate(ctx, P, U, R), (P, U, R)
 
 
+def quiet_htslib():
+    """htslib prints a warning for every undeclared header item of the generated files"""
+    import pysam
+    pysam.set_verbosity(0)
+
+
 def run(ctx):
+    quiet_htslib()
     run_histories(ctx, ctx.n(80, 800))
 
 
 def replay(ctx, data):
+    quiet_htslib()
     if "scenario" not in data:
         return run(ctx)
     wd = util.workdir(ctx)
